@@ -221,6 +221,8 @@ func Value(r *fw.Rand, n int) []byte {
 		}
 	case 4:
 		b[n-1] = byte(r.Pick(0xF0, 0xFF, 0x10, 0x01, n-1, n))
+	case 5:
+		WithMagic(r, b)
 	}
 	return b
 }
@@ -398,4 +400,23 @@ func Describe(p *ref.Packet) map[string]any {
 		"ext_kind": []string{"none", "one-byte", "two-byte", "legacy"}[p.ExtKind], "profile": fmt.Sprintf("%#04x", p.ProfileOf()), "elems": elems,
 		"payload_len": len(p.Payload), "payload": fw.Trunc(fw.Hex(p.Payload), 64), "pad_size": p.PadSize,
 	}
+}
+
+// Magics are byte strings that start well-known containers, codecs' side formats and neighbouring protocols. Payload bytes are
+// opaque to RTP packetization: nothing may depend on them looking like something else.
+var Magics = [][]byte{
+	[]byte("OpusHead"), []byte("OpusTags"), []byte("OggS"), []byte("RIFF"), []byte("WAVEfmt "), []byte("fLaC"), []byte("ID3"), []byte("DKIF"), []byte(".snd"),
+	{0x1A, 0x45, 0xDF, 0xA3}, {0x21, 0x12, 0xA4, 0x42}, {0x16, 0xFE, 0xFD}, {0x16, 0x03, 0x01}, {0x00, 0x00, 0x00, 0x01}, {0x00, 0x00, 0x01}, {0xFF, 0xF1}, {0xFF, 0xFB},
+	{0x80, 0xC8}, {0x81, 0xC9}, {0x9d, 0x01, 0x2a}, {0x49, 0x83, 0x42}, []byte("ftyp"), []byte("moof"), []byte("mdat"), {0x47, 0x40, 0x00}, {0xFC}, {0xF8, 0xFF, 0xFE},
+}
+
+// WithMagic overwrites the start of b (or a position inside it) with one of the magic strings.
+func WithMagic(r *fw.Rand, b []byte) []byte {
+	m := Magics[r.Intn(len(Magics))]
+	pos := 0
+	if len(b) > len(m)+4 && r.Chance(1, 4) {
+		pos = r.Pick(1, 3, 4, r.Intn(len(b)-len(m)))
+	}
+	copy(b[pos:], m)
+	return b
 }
